@@ -245,7 +245,12 @@ CHECKS = {
         technique=("property-based testing (rapid) in virtual time: client.Reconnect(BaseClient|CacheClient) and the plain clients over a scripted client.Impl "
                    "inside one testing/synctest bubble per case, Close / context cancellation at a generated virtual instant, bounded-time and trace "
                    "predicates on the recorded history (a call that never returns = bubble deadlock or missed virtual deadline); plus an order-only "
-                   "oracle for the real gNMI Impl against an in-process scripted gRPC server"),
+                   "oracle for the real gNMI Impl against an in-process scripted gRPC server; "
+                   "the Go shape of the registered transport double is a generated dimension of the virtual-time parts random / lifetime / entry (pointer, struct value, "
+                   "struct value holding a slice / map / func / interface-with-slice, array, named func type, named map type - each under a client type name of its own; "
+                   "same script, same oracles), and part real draws which exported constructor of client/gnmi made the transport (gnmi.New through type gnmi, or an "
+                   "application-registered type that dials itself and wraps the connection with gnmi.NewFromConn) and judges Close of a PLAIN BaseClient / CacheClient "
+                   "that finds the established stream of a quiet server with the structural hang verdict"),
         level_text=("Half A (virtual time): thousands (quick) to 320 000 (thorough) generated scripts of 0-6 connection attempts (constructor returns an Impl / fails / "
                     "parks until cancelled or the destination timeout / is 'deaf': a transport that does not watch its context, whose constructor takes its time and then "
                     "succeeds and whose stream keeps handing over its scripted messages after cancellation until the Impl itself is closed; Impl.Subscribe ok / error; 0-4 messages of 1-3 notifications with delays; then error, io.EOF, "
@@ -281,7 +286,9 @@ CHECKS = {
         rule=("half A: cases are (client kind, handler kind, wrapper, retry delays, query timeout, script of attempts, Subscribe instant, stop kind, stop instant); "
               "non-trivial = Close (not cancellation) on a reconnecting client lands inside a backoff sleep or between connect and first message after at least one "
               "reconnect, as observed in the recorded history; half B: cases are (client kind, 1-5 scripted connections); non-trivial = at least two (re)connected streams "
-              "delivered data; distinct = distinct hash of the scenario"),
+              "delivered data; part real additionally counts as non-trivial a plain client whose established, held-open stream was ended by Close alone and whose "
+              "Subscribe was awaited without any cancellation (label plain-close-while-streaming-awaited-without-cancel); transport shapes and constructors show as "
+              "labels impl-shape:* / ctor:*; distinct = distinct hash of the scenario"),
         assumptions=COMMON + [SYNCTEST_ASSUMPTION,
                               "the Impl's Close unblocks its own Recv (as closing a gRPC connection does); it honours cancellation of the context it was created with, except transports scripted deaf, "
                               "which ignore it while connecting and while they have scripted messages or a scripted end left (client.Impl / InitImpl do not promise to watch the context); "
